@@ -25,6 +25,7 @@ void gen_chain_params(Rng &rng, Plan &plan, bool allow_bcj, bool small_dicts)
 		plan.setp("ch_depth", rng.chance(500) ? 0 : rng.range(1, 40));
 	}
 	if (shape == 1 || shape == 3) plan.setp("ch_delta_dist", rng.range(1, 256));
+	if (rng.chance(120)) { plan.setp("ch_extra_delta", rng.range(1, 3)); if (!plan.hasp("ch_delta_dist")) plan.setp("ch_delta_dist", rng.range(1, 256)); }
 	if (shape >= 2) {
 		int b = (int)rng.below(8);
 		plan.setp("ch_bcj", b);
@@ -63,6 +64,13 @@ void chain_from_plan(const Plan &plan, Chain &c)
 	c.has_bcj = false;
 	c.desc.clear();
 	int b = (int)plan.p("ch_bcj", 0) & 7;
+	{
+		// up to LZMA_FILTERS_MAX filters: extra Delta filters in front of the chain
+		int want = (int)plan.p("ch_extra_delta", 0), have = 1 + (shape >= 2) + (shape == 1 || shape == 3);
+		memset(&c.delta2, 0, sizeof c.delta2);
+		c.delta2.type = LZMA_DELTA_TYPE_BYTE; c.delta2.dist = 1 + (uint32_t)(plan.p("ch_delta_dist", 1) * 7 % 256);
+		for (int k = 0; k < want && have + k < LZMA_FILTERS_MAX; ++k) { c.f[n].id = LZMA_FILTER_DELTA; c.f[n].options = &c.delta2; ++n; c.desc += "delta+"; }
+	}
 	if (shape >= 2) {
 		c.f[n].id = bcj_ids[b];
 		if (plan.hasp("ch_bcj_start")) { c.bcj.start_offset = (uint32_t)plan.p("ch_bcj_start"); c.f[n].options = &c.bcj; }
@@ -84,7 +92,7 @@ void chain_from_plan(const Plan &plan, Chain &c)
 	c.desc += c.lzma1 ? "lzma1" : "lzma2";
 	c.f[n].id = LZMA_VLI_UNKNOWN; c.f[n].options = nullptr;
 
-	if (plan.p("ch_via_string", 0) && c.preset_dict.empty()) {
+	if (plan.p("ch_via_string", 0) && c.preset_dict.empty() && plan.p("ch_extra_delta", 0) == 0) {
 		// C06: the same chain given in its textual form
 		char *str = nullptr;
 		if (lzma_str_from_filters(&str, c.f, LZMA_STR_ENCODER, nullptr) == LZMA_OK && str) {
